@@ -71,6 +71,9 @@ func (c *Connack) Unpack(r io.Reader) error {
 		c.Properties = &Properties{}
 		return c.Properties.Unpack(bufr, CONNACK)
 	}
+	if bufr.Len() != 0 {
+		return codes.ErrMalformed
+	}
 	return nil
 
 }
